@@ -8,7 +8,7 @@ func init() {
 	Runners["C12"] = queueRunner(RunC12)
 	harness.Specs["C12"] = &harness.PropSpec{
 		ID: "C12", Test: "TestC12", Kind: "queue", Level: "exploration",
-		Quick: 900, Thorough: 200000,
+		Quick: 900, Thorough: 1800,
 		Rule: "generated queue programs on small bounded files (16-128 pages, page size 1024/4096, write buffer 0..8 pages): cycles of fill-until-a-writer-call-" +
 			"fails / drain / ACK (all or part) / retry flush, mixed with steady produce-consume rounds; event model with the documented failure rules (a failing " +
 			"Write consumed nothing, an event completed by Next stays buffered if its flush fails); oracles: writer errors are errors (never loss, reorder or panic), " +
